@@ -265,3 +265,65 @@ class ScriptedProblem:
             self.cnt[i] = k
             out[row] = y
         return out
+
+
+class NumpyGP:
+    """A small exact GP (independent objectives, RBF kernel, known hyper-parameters) standing in for the fitted model of
+    VOGP_AD: lets the adaptive algorithm run in 1-D domains and to large depths without the gpytorch fit."""
+
+    def __init__(self, in_dim, out_dim, noise_var, lengthscale=0.3, variance=1.0):
+        self.input_dim, self.output_dim = in_dim, out_dim
+        self.noise = float(noise_var)
+        self.ls = np.full(out_dim, float(lengthscale))
+        self.var = np.full(out_dim, float(variance))
+        self.X = np.empty((0, in_dim))
+        self.Y = np.empty((0, out_dim))
+        self._cache = None
+
+    def _k(self, A, B, t):
+        d2 = ((A[:, None, :] - B[None, :, :]) ** 2).sum(-1)
+        return self.var[t] * np.exp(-0.5 * d2 / self.ls[t] ** 2)
+
+    def add_sample(self, X_t, Y_t):
+        self.X = np.vstack([self.X, np.asarray(X_t, float)[:, : self.input_dim]])
+        self.Y = np.vstack([self.Y, np.asarray(Y_t, float).reshape(-1, self.output_dim)])
+
+    def update(self):
+        self._cache = []
+        for t in range(self.output_dim):
+            K = self._k(self.X, self.X, t) + self.noise * np.eye(len(self.X))
+            L = np.linalg.cholesky(K)
+            Linv = np.linalg.inv(L)
+            self._cache.append((Linv, Linv.T @ (Linv @ self.Y[:, t])))
+
+    def train(self):
+        pass
+
+    def clear_data(self):
+        self.X = np.empty((0, self.input_dim))
+        self.Y = np.empty((0, self.output_dim))
+
+    def predict(self, X):
+        X = np.asarray(X, float)[:, : self.input_dim]
+        means = np.zeros((len(X), self.output_dim))
+        covs = np.zeros((len(X), self.output_dim, self.output_dim))
+        for t in range(self.output_dim):
+            if self._cache and len(self.X):
+                Linv, a = self._cache[t]
+                Ks = self._k(X, self.X, t)
+                means[:, t] = Ks @ a
+                v = Linv @ Ks.T
+                covs[:, t, t] = np.maximum(self.var[t] - (v**2).sum(0), 1e-12)
+            else:
+                covs[:, t, t] = self.var[t]
+        return means, covs
+
+    def get_lengthscale_and_var(self):
+        return self.ls.copy(), self.var.copy()
+
+    def get_kernel_type(self):
+        return "RBF"
+
+    def evaluate_kernel(self, X=None):
+        X = self.X if X is None else np.asarray(X, float)
+        return self._k(X, X, 0)
